@@ -963,15 +963,18 @@ class NestedCommandsIrcProxy(ReplyIrcProxy):
                     allowedLength = conf.get(conf.supybot.reply.mores.length,
                         channel=target, network=self.irc.network)
                     if not allowedLength: # 0 indicates this.
-                        allowedLength = (512
-                                - len(':') - len(self.irc.prefix)
-                                - len(' PRIVMSG ')
-                                - len(target)
-                                - len(' :')
-                                - len('\r\n')
-                                )
-                        if self.prefixNick:
-                            allowedLength -= len(msg.nick) + len(': ')
+                        # What is left of the 512 bytes of a line once the
+                        # server relays it with our prefix.  Measured on a
+                        # message built by _makeReply, because it is the one
+                        # choosing the command, the target (eg. the nick
+                        # instead of the channel for private replies) and
+                        # whether there is a "nick: " prefix.
+                        probe = _makeReply(self, msg, '.', **replyArgs)
+                        probe = ':%s %s %s :%s\r\n' % (self.irc.prefix,
+                                probe.command, probe.args[0],
+                                probe.args[1][:-1])
+                        allowedLength = 512 - (len(probe.encode())
+                                if minisix.PY3 else len(probe))
                     maximumMores = conf.get(conf.supybot.reply.mores.maximum,
                         channel=target, network=self.irc.network)
                     maximumLength = allowedLength * maximumMores
